@@ -291,7 +291,7 @@ class Tr:
         if self.depth > 12:
             raise Unsupported("inlining too deep")
         try:
-            return self.block(fn.body, dict(env), k, fn.name)
+            return self.block(_inline_self_aliases(fn).body, dict(env), k, fn.name)
         finally:
             self.depth -= 1
 
@@ -336,9 +336,14 @@ class Tr:
             elif isinstance(s, ast.Assign) and len(s.targets) == 1 and isinstance(s.targets[0], ast.Tuple) and all(isinstance(t, ast.Name) for t in s.targets[0].elts):
                 # unpacking of a tuple-valued expression (e.g. a helper method returning several coefficients, possibly from different
                 # branches): component-wise, conditionals distributed over the components
-                tv_ = self.expr(s.value, env, k)
-                for i_, t in enumerate(s.targets[0].elts):
-                    env[t.id] = tuple_proj(tv_, i_, len(s.targets[0].elts))
+                try:
+                    tv_ = self.expr(s.value, env, k)
+                    vals_ = [tuple_proj(tv_, i_, len(s.targets[0].elts)) for i_ in range(len(s.targets[0].elts))]
+                except Unsupported:
+                    # the components of an opaque value (e.g. the result tuple of a library call) are opaque values of their own
+                    vals_ = [("nonElem", f"opaque:{t.id}", ("var", f"loc:{k}.{t.id}")) for t in s.targets[0].elts]
+                for t, v_ in zip(s.targets[0].elts, vals_):
+                    env[t.id] = v_
             elif isinstance(s, ast.AugAssign) and isinstance(s.target, ast.Name):
                 op = {ast.Add: "add", ast.Sub: "sub", ast.Mult: "mul", ast.Div: "div"}[type(s.op)]
                 env[s.target.id] = (op, env[s.target.id], self.expr(s.value, env, k))
@@ -1105,7 +1110,7 @@ def wiring():
                         if isinstance(n_.func, ast.Name) and n_.func.id == "super":
                             n_.args = []          # `super(Class, self)` and `super()` are the same object here
                         return n_
-                return ast.unparse(ast.fix_missing_locations(T().visit(_copy.deepcopy(e_))))
+                return ast.unparse(_canon_arith(ast.fix_missing_locations(T().visit(_copy.deepcopy(e_)))))
             for n in ast.walk(fn):
                 if not isinstance(n, ast.Call):
                     continue
@@ -1191,6 +1196,81 @@ def wiring():
     L.append(",\n".join("  (" + lean_str(site) + ", [" + ", ".join(f"({lean_str(a)}, {lean_str(b)})" for a, b in args) + "])" for site, args in rows))
     L.append("]")
     return "\n".join(L), rows
+
+
+
+class _CanonArith(ast.NodeTransformer):
+    """argument expressions of the wiring rows in a spelling-independent form: `np.square(x)` / `np.power(x, n)` are `x ** 2` / `x ** n`, and
+    the operands of every product and sum are listed in a fixed (textual) order — `a * b` and `b * a` name the same argument"""
+
+    def visit_Call(self, n):
+        n = self.generic_visit(n)
+        f = ast.unparse(n.func)
+        if f in ("np.square", "numpy.square") and len(n.args) == 1 and not n.keywords:
+            return ast.BinOp(left=n.args[0], op=ast.Pow(), right=ast.Constant(value=2))
+        if f in ("np.power", "numpy.power", "pow") and len(n.args) == 2 and not n.keywords:
+            return ast.BinOp(left=n.args[0], op=ast.Pow(), right=n.args[1])
+        return n
+
+    def visit_BinOp(self, n):
+        n = self.generic_visit(n)
+        if isinstance(n.op, (ast.Mult, ast.Add)):
+            ops = []
+
+            def flat(x):
+                if isinstance(x, ast.BinOp) and type(x.op) is type(n.op):
+                    flat(x.left); flat(x.right)
+                else:
+                    ops.append(x)
+            flat(n)
+            ops.sort(key=lambda x: ast.unparse(x))
+            out = ops[0]
+            for x in ops[1:]:
+                out = ast.BinOp(left=out, op=type(n.op)(), right=x)
+            return out
+        return n
+
+
+def _canon_arith(tree):
+    return ast.fix_missing_locations(_CanonArith().visit(tree))
+
+
+
+def _inline_self_aliases(fn):
+    """`g = self.growth; return g.growth_factor(z)` reads like `return self.growth.growth_factor(z)`: single-assignment locals whose value is a
+    plain attribute chain on `self` (a component, a bound method, a parameter) are written out at their uses before translation"""
+    import copy as _copy
+    cnt, val = {}, {}
+    for a_ in ast.walk(fn):
+        if isinstance(a_, (ast.Assign, ast.AugAssign, ast.AnnAssign, ast.For)):
+            tg = a_.targets if isinstance(a_, ast.Assign) else [a_.target]
+            for t_ in tg:
+                for n_ in ast.walk(t_):
+                    if isinstance(n_, ast.Name) and isinstance(n_.ctx, ast.Store):
+                        cnt[n_.id] = cnt.get(n_.id, 0) + (1 if isinstance(a_, ast.Assign) else 2)
+        if isinstance(a_, ast.Assign) and len(a_.targets) == 1 and isinstance(a_.targets[0], ast.Name):
+            v_ = a_.value
+            chain = v_
+            while isinstance(chain, ast.Attribute):
+                chain = chain.value
+            if isinstance(v_, ast.Attribute) and isinstance(chain, ast.Name) and chain.id == "self" and ast.unparse(v_) != "self.params":
+                val[a_.targets[0].id] = v_
+    params = {a.arg for a in fn.args.args}
+    alias = {n_: v_ for n_, v_ in val.items() if cnt.get(n_) == 1 and n_ not in params}
+    if not alias:
+        return fn
+
+    class T(ast.NodeTransformer):
+        def visit_Name(s_, n_):
+            if isinstance(n_.ctx, ast.Load) and n_.id in alias:
+                return _copy.deepcopy(alias[n_.id])
+            return n_
+
+        def visit_Assign(s_, a_):
+            if len(a_.targets) == 1 and isinstance(a_.targets[0], ast.Name) and a_.targets[0].id in alias:
+                return None            # the alias definition itself disappears
+            return s_.generic_visit(a_)
+    return ast.fix_missing_locations(T().visit(_copy.deepcopy(fn)))
 
 
 GUARD_FILES = ["mass_function/integrate_hmf.py", "mass_function/fitting_functions.py", "mass_function/hmf.py", "helpers/sample.py",
